@@ -73,6 +73,7 @@ type v2run struct {
 	evCh     chan priority.VerifEvent
 	gate     chan struct{}
 	free     atomic.Bool
+	freeCh   chan struct{}
 	log      []obs
 	stop     chan struct{} // releases parked writers of unbuffered inputs at the end
 	parked   map[uint]*atomic.Bool
@@ -104,13 +105,16 @@ func (r *v2run) hook(ev priority.VerifEvent) {
 	if r.free.Load() {
 		return
 	}
-	r.evCh <- ev
-	<-r.gate
+	select {
+	case r.evCh <- ev:
+		<-r.gate
+	case <-r.freeCh: // the harness switched to free-running while this step was in progress
+	}
 }
 
 func newV2(t *testing.T, cfg Config, gated bool) *v2run {
 	r := &v2run{cfg: cfg, ins: map[uint]chan int{}, closedIn: map[uint]bool{}, nextItem: map[uint]int{}, recvCount: map[uint]int{},
-		evCh: make(chan priority.VerifEvent), gate: make(chan struct{}), stop: make(chan struct{}), parked: map[uint]*atomic.Bool{}}
+		evCh: make(chan priority.VerifEvent), gate: make(chan struct{}), freeCh: make(chan struct{}), stop: make(chan struct{}), parked: map[uint]*atomic.Bool{}}
 	r.free.Store(!gated)
 	inputs := map[uint]<-chan int{}
 	for _, p := range cfg.Prios {
@@ -563,6 +567,7 @@ func replayPath(t *testing.T, cfg Config, path []step, cont string) (res pathRes
 			r.stallGated()
 		}
 		r.free.Store(true)
+		close(r.freeCh)
 		close(r.gate)
 		if cont == "stall" && !cfg.Saturated {
 			r.stall()
@@ -596,6 +601,17 @@ func readPaths(t *testing.T, fn func(n int, path []step)) {
 	}
 }
 
+// resetV2 is the header record of a v2 trace for Mon_Prio: in v2 an input channel is identified with its priority.
+func resetV2(cfg Config, n int, cont string, fault bool) map[string]any {
+	chprio := [][2]int{}
+	for _, p := range cfg.Prios {
+		chprio = append(chprio, [2]int{int(p), int(p)})
+	}
+	return map[string]any{"e": "Reset", "path": n, "H": cfg.H, "prios": cfg.Prios, "chans": cfg.Prios, "chprio": chprio,
+		"live": cfg.Prios, "share": shareOf(cfg), "sat": cfg.Saturated, "fault": fault, "v1": false, "cont": cont,
+		"p": 0, "k": 0, "c": 0, "cfg": cfg}
+}
+
 func shareOf(cfg Config) [][2]int {
 	dist := map[uint]uint{}
 	dividerByName(cfg.Div)(append([]uint(nil), cfg.Prios...), cfg.H, dist)
@@ -625,8 +641,7 @@ func TestReplayV2(t *testing.T) {
 			diverged++
 		}
 		results.put(res)
-		events.put(map[string]any{"e": "Reset", "path": n, "H": cfg.H, "prios": cfg.Prios, "share": shareOf(cfg),
-			"sat": cfg.Saturated, "fault": faultBad, "cont": cont, "p": 0, "k": 0, "c": 0})
+		events.put(resetV2(cfg, n, cont, faultBad))
 		for _, o := range log {
 			events.put(o)
 		}
